@@ -594,10 +594,10 @@ func check(id, tier string) int {
 		"build_s":             buildS,
 		"explore_s":           exploreS,
 		"components": map[string]interface{}{
-			"real_instrumented":   []string{"engine", "engine/pool", "engine/pubsub", "interpreter", "scope", "parser (incl. lexer.go)", "util", "stdlib", "config"},
+			"real_instrumented":   []string{"engine", "engine/pool", "engine/pubsub", "interpreter", "scope", "parser (incl. lexer.go)", "util", "stdlib", "config", "cli/tool (driven by C15/C16 only: CLIDebugInterpreter, CLIInterpreter.HandleInput / LoadInitialFile, debugTelnetServer.HandleConnection)"},
 			"real_uninstrumented": []string{"github.com/krotik/common", "stdlib/stdlib_gen.go (generated binding table)", "Go runtime and standard library"},
-			"simulated":           []string{"goroutine scheduling (incl. the lexer goroutine)", "sync.Mutex/RWMutex/Cond/WaitGroup/Once", "channel send/receive/close/range", "sync/atomic functions (real values, simulated ordering)", "time.Sleep/Now", "math/rand top-level functions", "map iteration order", "package-level state (snapshot/restore between runs)"},
-			"stubbed":             []string{"timeutil.Cron (stopped)", "telnet debug server / console (HandleInput driven directly)", "file import locator (memory locator)", "stdout/stderr loggers (memory logger)"},
+			"simulated":           []string{"goroutine scheduling (incl. the lexer goroutine)", "sync.Mutex/RWMutex/Cond/WaitGroup/Once", "channel send/receive/close/range", "sync/atomic functions (real values, simulated ordering)", "select", "time.Sleep/Now/NewTimer/After/AfterFunc/NewTicker", "sync.Pool and sync.Map (deterministic)", "math/rand top-level functions", "map iteration order", "package-level state (snapshot/restore between runs)"},
+			"stubbed":             []string{"timeutil.Cron (stopped)", "TCP listener and sockets of the telnet debug server (in-memory connection handed to the real connection handler; accept loop not run)", "interactive terminal of the console (lines handed to CLIInterpreter.HandleInput)", "file import locator (memory locator; the console sessions use the real file locator on a scratch directory)", "stdout/stderr loggers (memory logger)"},
 		},
 	}
 	if p.engine == engBubble {
